@@ -483,7 +483,7 @@ for _c in (False, True):
     for _y in (False, True):
         register(NUMBA, "reduce_array_pair", f"generic,counts={'array' if _c else 'None'},y_counts={'array' if _y else 'None'}",
                  {"x": "arr:opaque:V", "y": "arr:opaque:V", "reducer": "step:STEP", "counts": "arr:int:int64" if _c else "none", "y_counts": "arr:int:int64" if _y else "none"},
-                 _rap_contract(_c, _y), specs={"STEP_acc": stepA, "STEP_cnt": stepC}, props=("C03", "C04", "C12"),
+                 _rap_contract(_c, _y), specs={"STEP_acc": stepA, "STEP_cnt": stepC}, props=("C01", "C03", "C04", "C12"),
                  cex=_cex_step("nanmin", None, {"x": "arr:float:float64", "y": "arr:float:float64"}, {"reducer": "step"}))
 class _RapCallee:
     """the contract a CALLER of reduce_array_pair sees: exactly the requires/ensures proved above for the instantiation selected by which optionals are None"""
@@ -507,7 +507,7 @@ register(NUMBA, "combine_chunk_results_for_factorized_key", "generic,counts=list
                         "lemmas": ["forall(k, 0, G(), chunk[k] == blkval(1 + _it0, k) and count[k] == blkcnt(1 + _it0, k))"]}},
           "ensures": ["len(result0) == G() and len(result1) == G()", "forall(k, 0, G(), result0[k] == MA(k, len(chunks)) and result1[k] == MC(k, len(chunks)))"]},
          specs={"STEP_acc": stepA, "STEP_cnt": stepC, "MA": MA, "MC": MC, "G": lambda: Gc, "blkval": None, "blkcnt": None}, setup=_late_combine,
-         callees={"reduce_array_pair": _RapCallee()}, props=("C03", "C04", "C12"), lemma_deps=("L-merge", "L-merge-step"),
+         callees={"reduce_array_pair": _RapCallee()}, props=("C01", "C03", "C04", "C12"), lemma_deps=("L-merge", "L-merge-step"),
          cex=_cex_step("nanmin", {"MA": (["I", "I"], "F")}, {"chunks": "chunks:float:float64", "counts": "chunks:int:int64"}, {"reduce_func_name": "str:nanmin", "chunks": "list", "counts": "list"}))
 
 # ----------------------------------------------------------------------------- _rolling_shift_or_diff_1d (shift on an OPAQUE value sort, diff on floats; mask / no mask)
@@ -749,3 +749,26 @@ for _mp in (False, True):
 # (Which body is selected for which numba type is a structural obligation on the dispatcher, props/c12.py; MIN_INT's value is a finite fact checked there as well.)
 for _k, (_vk, _ens) in enumerate((("float", "result == isnanf(x)"), ("int", f"result == (x == {MIN_INT})"), ("bool", "result == False"))):
     register(UTIL, f"jit_is_null.is_null#{_k}", _vk, {"x": _vk}, {"ensures": [_ens]}, specs={"isnanf": lambda f: F.is_NaN(f)}, props=("C01", "C06", "C12", "C20"))
+
+# ----------------------------------------------------------------------------- GroupBy._find_first_chunk_in_slice (plain Python glue in core.py, C05 / C03)
+# The chunk that holds the first row of a slice mask: the pointer tables / mask chunks of a chunked key are re-based on it (_resolve_mask_argument_into_chunks and its callers).
+# `self` and the slice are read only through attributes: the instantiation names them (self.key_is_chunked, self._group_key_lengths, len(self); mask.start / mask.step with their
+# None-ness fixed per instantiation, like numba's optionals).  offc(c) = number of rows before chunk c.
+CORE = "groupby_lib/groupby/core.py"; offc = z3.Function("offc", I, I)
+def _ffc_contract(start_kind, stepped):
+    L = "len(self._group_key_lengths)"
+    startv = {"none": "0", "int": "(len(self) + mask.start if mask.start < 0 else mask.start)"}[start_kind]
+    return {"requires": [f"{L} >= 1", "offc(0) == 0", f"forall(c, 0, {L}, offc(c + 1) == offc(c) + self._group_key_lengths[c] and self._group_key_lengths[c] >= 0)", f"offc({L}) == len(self)",
+                         # L-ps-mono (proved separately by induction): prefix sums of non-negative lengths are monotone
+                         f"forall(c, 0, {L} + 1, offc(c) <= offc({L}))"],
+            "raises": "self.key_is_chunked" if stepped else None,
+            "loops": {0: {"iter": "enumerate(self._group_key_lengths)", "invariant": [f"start == {startv}", "cum_length == offc(_it0)", "forall(c, 0, _it0, offc(c + 1) <= start)", "implies(_it0 > 0, i == _it0 - 1)"],
+                          "unfold": ["offc(_it0 + 1) == offc(_it0) + self._group_key_lengths[_it0]"]}},
+            "ensures": [f"0 <= result and result < {L}",
+                        # the first chunk whose end lies beyond the first selected row: every earlier chunk ends at or before it (so it is wholly outside the slice), and this one does not
+                        f"forall(c, 0, result, offc(c + 1) <= {startv})", f"implies({startv} < len(self), {startv} < offc(result + 1))", f"implies({startv} >= len(self), result == {L} - 1)"]}
+for _sk in ("none", "int"):
+    for _stepped in (False, True):
+        register(CORE, "GroupBy._find_first_chunk_in_slice", f"start={_sk},step={'int' if _stepped else 'None'}",
+                 {"self": {"key_is_chunked": "bool", "_group_key_lengths": "arr:int:int64", "__len__": "int"}, "mask": {"start": _sk, "step": "int" if _stepped else "none"}},
+                 _ffc_contract(_sk, _stepped), specs={"offc": offc}, props=("C05", "C03"), lemma_deps=("L-ps-mono",))
